@@ -23,6 +23,8 @@ GenStep ==
     [] last.op = "Lookup" ->
          [op |-> "G.Lookup", depth |-> M,
           a |-> [p |-> last.a[1], h |-> last.a[2], v |-> last.a[3]]]
+    [] last.op = "Notation" ->
+         [op |-> "G.Notation", depth |-> M, a |-> [id |-> last.a]]
     [] OTHER -> [op |-> "none", depth |-> M, a |-> <<>>]
 
 Emit == (depth > 0) => PrintT(ToJson(GenStep))
